@@ -386,8 +386,11 @@ class Run:
             self.event(self.step_i, 'unreadable', op['type'], path, type(exc).__name__)
             return
         if type(obj).__name__ != O.expected_class(op):
+            # C08 has judged the class; what the message means is still decided by the message, so the merge is
+            # carried out and judged like any other (a misclassified insert that does nothing breaks C01/C02 too)
             self.event(self.step_i, 'misclassified', op['type'], type(obj).__name__)
-            return
+            if not hasattr(obj, 'merge') or isinstance(obj, MT.RunningOrder) and op['type'] != 'ROReplace':
+                return
         snap = str(obj)
         ck = self.cfg.get('checks', {})
         if ck.get('message', True) and not op.get('malformed'):
